@@ -70,8 +70,15 @@ impl<'bytes> TokenStream<'bytes> {
             }
             Err(LexErrorContext(rest, kind)) => {
                 // Remaining should be a subslice of original input
-                debug_assert!(self.input_bytes.as_ptr_range().start <= rest.as_ptr_range().start);
-                debug_assert!(self.input_bytes.as_ptr_range().end == rest.as_ptr_range().end);
+                // (an error at the end of the stream carries an empty slice that is not part of the input)
+                debug_assert!(
+                    rest.is_empty()
+                        || self.input_bytes.as_ptr_range().start <= rest.as_ptr_range().start
+                );
+                debug_assert!(
+                    rest.is_empty()
+                        || self.input_bytes.as_ptr_range().end == rest.as_ptr_range().end
+                );
 
                 // Failure point should be after the lex start point
                 let error_offset = self.input_bytes.len() - rest.len();
